@@ -94,6 +94,7 @@ inductive Fault
   | over (call key delta : Nat)    -- after the real division add `delta` to `key`
   | under (call key delta : Nat)   -- ... subtract `delta` from `key` (if it has that much)
   | zero (call : Nat)              -- the divider adds nothing at this call
+  | park (spare key delta : Nat)   -- sum-preserving: every call after the first moves `delta` from `key` to `spare`
   deriving Repr
 
 def mkDiv (base : Div) (f : Fault) : DivFn := fun idx ps d m =>
@@ -106,6 +107,9 @@ def mkDiv (base : Div) (f : Fault) : DivFn := fun idx ps d m =>
       if r.get k ≥ dl then r.set k (r.get k - dl) else r
     else base ps d m
   | .zero c => if idx = c then m else base ps d m
+  | .park sp k dl =>
+    let r := base ps d m
+    if idx ≠ 0 ∧ r.get k ≥ dl then (r.set k (r.get k - dl)).add sp dl else r
 
 structure Session where
   div : DivFn
@@ -146,6 +150,7 @@ def parseFault? (s : String) : Option Fault :=
   | [c, "over", k, d] => do some (.over (← parseNat? c) (← parseNat? k) (← parseNat? d))
   | [c, "under", k, d] => do some (.under (← parseNat? c) (← parseNat? k) (← parseNat? d))
   | [c, "zero"] => do some (.zero (← parseNat? c))
+  | [sp, "park", k, d] => do some (.park (← parseNat? sp) (← parseNat? k) (← parseNat? d))
   | _ => none
 
 def parseKeys? (s : String) : Option (List (Nat × Bool)) :=
